@@ -317,6 +317,49 @@ def real_results(col, seed):
     col.nontrivial.add(("real", seed))
 
 
+def real_concat(col, seed):
+    """concat_collocations on GENUINE collocate() results (whatever integer type the collocator stores its pairs in):
+    three results with together more than 256 / 512 stored points per side; the concatenation must satisfy the structural
+    clause and expand to the concatenation of the three expansions."""
+    import random
+    import collmodel as cm
+    import ring
+    from typhon.collocations import Collocator, expand
+    from typhon.collocations.collocator import concat_collocations
+    rng = random.Random(seed)
+    emb = ring.embeddings(8)[rng.choice(["equator", "meridian", "tilted"])]
+    parts = []
+    for size in rng.choice([(120, 90, 100), (200, 130, 160), (60, 250, 40)]):
+        P = [(rng.randrange(0, 20), rng.randrange(8)) for _ in range(size)]
+        S = [(rng.randrange(0, 20), rng.randrange(8)) for _ in range(size)]
+        res = Collocator().collocate(cm.dataset(P, emb), cm.dataset(S, emb), max_interval=cm.interval_arg(3, 0),
+                                     max_distance=cm.distance_arg(1, 8, 0))
+        if res is not None:
+            parts.append(res)
+    col.count(1)
+    if len(parts) < 2:
+        return
+    rep = {"abstract": {"parts": [[int(r["primary/id"].size), int(r["secondary/id"].size), int(r["Collocations/pairs"].shape[1])] for r in parts]}}
+    want_p, want_s = [], []
+    for r in parts:
+        pr = r["Collocations/pairs"].values
+        want_p += r["primary/id"].values[pr[0]].tolist()
+        want_s += r["secondary/id"].values[pr[1]].tolist()
+    try:
+        cc = concat_collocations(parts)
+        if not cm.compact_check(cc):
+            col.violation("concat-breaks-compact-invariant-real-results", dict(rep, observed=cc["Collocations/pairs"].values[:, :40].tolist()))
+            return
+        e = expand(cc)
+        if e["primary/id"].values.tolist() != want_p or e["secondary/id"].values.tolist() != want_s:
+            col.violation("concat-expand-wrong-rows-real-results", dict(rep, observed="expanded ids differ from the concatenated expansions"))
+    except Exception as ex:
+        col.violation("concat-raises-" + type(ex).__name__ + "-real-results", dict(rep, observed=repr(ex)[:300]))
+        return
+    if sum(int(r["primary/id"].size) for r in parts) > 256:
+        col.nontrivial.add(("real-concat", seed))
+
+
 def run(ctx):
     quick = ctx.tier == "quick"
     ctx.rule = ("TLC enumerates every compact dataset with <= MaxPairs distinct pairs over <= 3x3 stored points satisfying "
@@ -341,5 +384,6 @@ def run(ctx):
     pmap(ctx, replay_case, [(c, n, ctx.tier) for n, c in enumerate(cases)])
     pmap(ctx, read_modes, cases[::12] if quick else cases[::40], procs=1)       # NetCDF I/O: one process, one thread
     pmap(ctx, real_results, [ctx.seed * 1000 + i for i in range(24 if quick else 300)])
+    pmap(ctx, real_concat, [ctx.seed * 1000 + i for i in range(9 if quick else 90)])
     ctx.traces += len(cases)
     ctx.sample({k: cases[0]["a"][k] for k in ("pairs", "pv", "sv", "expand", "colp")})
